@@ -26,8 +26,7 @@ func (node *simpleDocumentNode) ShallowCopy() Node {
 	value := node.Value()
 	pointer := node.Pointer()
 
-	newNode := newSimpleDocumentNode(document, tag, value, pointer)
-	document.AddNode(newNode)
-
-	return newNode
+	// The copy knows which document it came from, but it is not a part of it:
+	// making a copy must not change the document.
+	return newSimpleDocumentNode(document, tag, value, pointer)
 }
